@@ -372,7 +372,9 @@ def save (s : State) (oi : Nat) : State × Option Err :=
         let s1 := match s0.entry o.res with
           | some e =>
             let blob := (s0.root o).toBase
-            let s' := s0.setEntry o.res { e with contents := blob }
+            -- a file that did not exist when it entered the buffer must be created by the flush:
+            -- the stored hash becomes the one of "no data"
+            let s' := s0.setEntry o.res { e with contents := blob, hash := if e.fmeta.isNone then .leaf .null else e.hash }
             { s' with size := s'.size + encLen s0.flen blob - encLen s0.flen e.contents }
           | none =>
             let s' := initEntrySer s0 o
